@@ -17,6 +17,12 @@ K5 == [q \in P5 |-> CASE q = "r" -> {"l1", "l1b", "s1"} [] q = "s1" -> {"m1"} []
 L5 == [q \in P5 |-> CASE q \in {"l1", "l1b"} -> "l" [] OTHER -> q]
 O5 == <<"r", "l1", "l1b", "s1", "m1">>
 
+\* the same leaf below a branch and, further up, below an ancestor of that branch (reached through an extension)
+PA == {"r", "e", "a", "x1", "y", "x2"}
+KA == [q \in PA |-> CASE q = "r" -> {"e", "x2"} [] q = "e" -> {"a"} [] q = "a" -> {"x1", "y"} [] OTHER -> {}]
+LA == [q \in PA |-> CASE q \in {"x1", "x2"} -> "x" [] OTHER -> q]
+OA == <<"r", "e", "a", "x1", "y", "x2">>
+
 None == {}
 D_MarkerFirst == {"JumpMarkerFirst"}
 D_NoTraverse == {"NoTraverse"}
